@@ -537,7 +537,7 @@ func mapTypesToDynamoLocalSecondaryIndexes(input []types.LocalSecondaryIndexDesc
 }
 
 func mapTypesToDynamoItem(item *types.Item) dynamodbtypes.AttributeValue {
-	if len(item.B) != 0 {
+	if item.B != nil {
 		return &dynamodbtypes.AttributeValueMemberB{
 			Value: item.B,
 		}
